@@ -1,5 +1,4 @@
-import Zc.Proofs.CacheRun
-import Zc.GenFacts.Cache
+import Zc.Proofs.PostState
 /-! # C05 — record cache: all lookup paths agree with an RFC 6762 §10 reference model
 
 `Cache` (`Zc/Model/Cache.lean`) is `DNSCache` as the code has it: a dict of dicts keyed by lower-cased owner
@@ -118,6 +117,78 @@ theorem C05_purge_exact (evs : List Event) (now : Ms) :
   have hd : ((specAfter lower evs).filter (fun e => e.isExpired now)).Nodup :=
     (List.Pairwise.filter _ h.2).imp (fun hab heq => hab (by rw [heq]))
   exact hp.symm.nodup_iff.1 hd |> fun x => x
+
+/-- an event that neither withdraws, nor refreshes, nor flushes the record of `q`, nor purges at or after `deadline` -/
+def Quiet (q : Rec) (deadline : Ms) : Event → Prop
+  | .datagram _ recs => (∀ r ∈ recs, r.ident lower ≠ q.ident lower)
+      ∧ (∀ u ∈ recs, u.unique = true → ¬ (lower u.name = lower q.name ∧ u.type = q.type ∧ u.class_ = q.class_))
+  | .purge now => now < deadline
+
+theorem refresh_safe_aux {c : Cache} {s : List Rec} (h : Refines lower c s) (hw : Flat.WF lower s) (q e : Rec)
+    (he : Flat.getUnique lower s q = some e) (evs : List Event)
+    (hquiet : ∀ ev ∈ evs, Quiet lower q (e.created + 1000 * (e.ttl : Int)) ev) :
+    (runEvents lower (Cache.ops lower) c evs).getUnique lower q = some e := by
+  induction evs generalizing c s with
+  | nil => rw [runEvents, List.foldl_nil, h.getUnique q]; exact he
+  | cons ev t ih =>
+    have hstep := h.stepEvent hw ev
+    have hkeep := Flat.stepEvent_keeps (lower := lower) s hw he ev (by
+      have := hquiet ev (by simp)
+      cases ev with
+      | datagram now recs => exact this
+      | purge now => exact this)
+    exact ih hstep.1 hstep.2 hkeep (fun ev' hev' => hquiet ev' (by simp [hev']))
+
+/-- **C05 (refresh safety).**  After any history, let a datagram arriving at `t` carry a non-zero copy of a
+record and no goodbye for it; let `T` be the (floored) TTL of its last non-zero copy.  Then, through any
+further sequence of datagrams that contain neither that record (no later refresh, no withdrawal) nor a
+cache-flush record of its name/type/class, and of purges at any instants before `t + 1000·T`, the record is
+still cached with creation time `t` and TTL `T`: it is never purged before its latest TTL runs out. -/
+theorem C05_refresh_safe (evs : List Event) (t : Ms) (recs : List Rec) (q r : Rec)
+    (hlive : lastLive lower recs q = some r) (hng : hasGoodbye lower recs q = false)
+    (later : List Event) (hquiet : ∀ ev ∈ later, Quiet lower q (t + 1000 * (storedTtl r.type r.ttl : Int)) ev) :
+    ∃ e, (cacheAfter lower (evs ++ [.datagram t recs] ++ later)).getUnique lower q = some e
+      ∧ e.created = t ∧ e.ttl = storedTtl r.type r.ttl := by
+  have h0 := (Refines.empty lower).runEvents (by simp [Flat.WF]) evs
+  have h1 := h0.1.stepEvent h0.2 (.datagram t recs)
+  -- the record right after the refreshing datagram
+  have hafter : ∃ e, Flat.getUnique lower (stepEvent lower (Flat.ops lower) (runEvents lower (Flat.ops lower) [] evs) (.datagram t recs)) q = some e
+      ∧ e.created = t ∧ e.ttl = storedTtl r.type r.ttl := by
+    obtain ⟨o, ho, hpost⟩ := Flat.postState (lower := lower) (runEvents lower (Flat.ops lower) [] evs) t recs
+    simp only [stepEvent, ho]
+    have hp := hpost q
+    unfold PostState at hp
+    cases hb : Flat.getUnique lower (runEvents lower (Flat.ops lower) [] evs) q with
+    | none =>
+      rw [hb] at hp
+      simp only [hlive, Option.map_some] at hp
+      exact ⟨_, hp, rfl, rfl⟩
+    | some e0 =>
+      rw [hb] at hp
+      simp only [hng, Bool.false_eq_true, if_false] at hp
+      obtain ⟨e', he', hr⟩ := hp
+      unfold Refreshed at hr
+      rw [lastLive_congr recs (Flat.getUnique_ident hb), hlive] at hr
+      simp only [] at hr
+      exact ⟨e', he', by rw [hr]; rfl, by rw [hr]; rfl⟩
+  obtain ⟨e, he, hc, ht⟩ := hafter
+  refine ⟨e, ?_, hc, ht⟩
+  unfold cacheAfter runEvents
+  rw [List.foldl_append, List.foldl_append]
+  simp only [List.foldl_cons, List.foldl_nil]
+  exact refresh_safe_aux lower h1.1 h1.2 q e he later (by rw [hc, ht]; exact hquiet)
+
+/-- non-vacuity of the hypotheses of `C05_refresh_safe`: a PTR received twice in one datagram (TTL 120, floored to
+1125 s), then an unrelated flush record and a purge one millisecond before the deadline -/
+example :
+    let p : Rec := ⟨"_x._tcp.local.", 12, 1, false, 120, 0, .ptr "a._x._tcp.local."⟩
+    lastLive id [p, p] p = some p ∧ hasGoodbye id [p, p] p = false ∧ storedTtl p.type p.ttl = 1125
+    ∧ Quiet id p (1000 + 1000 * 1125) (.purge 1125999)
+    ∧ Quiet id p (1000 + 1000 * 1125) (.datagram 5000 [⟨"h.local.", 1, 1, true, 120, 0, .addr [10, 0, 0, 1] none⟩]) := by
+  refine ⟨by decide, by decide, by decide, (by decide : (1125999 : Int) < 1000 + 1000 * 1125), ?_⟩
+  constructor
+  · intro r hr; simp at hr; subst hr; decide
+  · intro u hu; simp at hu; subst hu; decide
 
 /-- non-vacuity: a history that exercises refresh, duplicate-in-datagram and purge -/
 example : ∃ evs : List Event, (specAfter id evs).length = 1 :=
